@@ -31,6 +31,10 @@ def items_for(ms):
         # comma is directly followed by a string literal
         name + "!(target: AUDIT);", name + "!(target: AUDIT, MSG);", name + "!(k = 1; MSG);", 'out.insert(0, "header");', 'f(a, "b", c);',
         'let s = "' + S.replace('"', '\\"') + '";',
+        # macro-like text in other literals: a string that ends inside the invocation, raw strings (one containing `"#`), a glob and a URL
+        # followed by a commented-out statement
+        'let a = "see ' + name + '!("; let b = "x";', 'let r = r#"' + S + '"#;', 'let r = r##"a "# ' + S + ' "##;',
+        'let g = "src/*"; let h = "' + name + '!(\\"x\\") */";', 'let u = "http://h"; /* ' + S + ' */',
     ]
     # a module path of several segments: every proper suffix and every proper prefix of it is a different path
     segs = mod.split("::")
